@@ -24,8 +24,8 @@ RE_ENC = re.compile(
     r'(?P<chk>if sat_num > (?P<CHKN>\d+) \{ return Err\(RtcmError::OutOfRange\); \} )?'
     r'asm\.put::<U8>\(sat_num, (?P<SNW>\d+)\)\?; '
     r'for s in 0\.\.=(?P<SMAX2>\d+)u8 \{ if sat_mask & \(1 << s\) != 0 \{ asm\.put::<U8>\(s, (?P<SW>\d+)\)\?; '
-    r'let num_biases = value\.iter\(\)\.filter\(\|b\| (?P<CCOND>.+?)\)\.count\(\); '
-    r'(?P<chk2>if num_biases > (?P<NBMAX>\d+) \{ return Err\(RtcmError::OutOfRange\); \} )?asm\.put::<U8>\(num_biases as u8, (?P<NBW>\d+)\)\?; let mut bias_mask: u32 = 0; '
+    r'let num_biases = value\.iter\(\)\.filter\(\|b\| (?P<CCOND>.+?)\)\.count\(\)(?P<CCAST> as u8)?; '
+    r'(?P<chk2>if num_biases > (?P<NBMAX>\d+) \{ return Err\(RtcmError::OutOfRange\); \} )?asm\.put::<U8>\((?P<NBARG>num_biases(?: as u8)?), (?P<NBW>\d+)\)\?; let mut bias_mask: u32 = 0; '
     r'for bias in value\.iter\(\)\.filter\(\|b\| b\.satellite_id == s\) \{ if let Some\(sig_id\) = to_id\(bias\.signal_id\) \{ asm\.put::<U8>\(sig_id, (?P<SIGW>\d+)\)\?; '
     r'let mut bias = bias\.bias_m; bias /= (?P<RES>[0-9.]+); let bias = if bias > 0\.0 \{ bias \+ 0\.5 \} else \{ bias - 0\.5 \} as i16; asm\.put::<I16>\(bias, (?P<BW>\d+)\)\?; \} \} \} \} Ok\(\(\)\)$')
 
@@ -183,9 +183,9 @@ def emit(vf, exp, path, fr, ind):
     sp.slice_map = {'value': 'value.as_slice()'}
     sp.replace = [
         (r'\b(asm|par)\.(put|parse)::<(\w+)>\(', r'\1.\2_\3(', 'R6 generic L0 call monomorphised'),
-        (r'(?s)let num_biases =\s*value\s*\.iter\(\)\s*\.filter\(\|b\|\s*(?P<cond>.*?)\)\s*\.count\(\);',
+        (r'(?s)let num_biases =\s*value\s*\.iter\(\)\s*\.filter\(\|b\|\s*(?P<cond>.*?)\)\s*\.count\(\)(?P<cast>\s*as u8)?;',
          lambda mm: ('let num_biases = { let verif_fs = value.as_slice(); let mut verif_fc: usize = 0; let mut verif_fj: usize = 0;\n'
-                     ' while verif_fj < verif_fs.len() /*@LOOPHEAD*/ {\n let b = &verif_fs[verif_fj];\n if %s { verif_fc += 1; }\n verif_fj += 1;\n }\n verif_fc };' % norm_ws(mm.group('cond'))),
+                     ' while verif_fj < verif_fs.len() /*@LOOPHEAD*/ {\n let b = &verif_fs[verif_fj];\n if %s { verif_fc += 1; }\n verif_fj += 1;\n }\n verif_fc }%s;' % (norm_ws(mm.group('cond')), mm.group('cast') or '')),
          'R10b `X.iter().filter(|b| COND).count()` => counting index loop over X.as_slice()'),
         (r'for (\w+) in value\.iter\(\)\.filter\(\|b\| b\.satellite_id == s\)\s*\{',
          r'for \1 in value.iter() { if !(\1.satellite_id == s) { continue; }',
@@ -224,7 +224,7 @@ def emit(vf, exp, path, fr, ind):
     if has_chk2:
         A(('before', 'return Err(RtcmError::OutOfRange);', 2 if has_chk else 1,
            'proof { assert(present(vv, vv.len() as int, s as int) && gcnt(vv, s as int, vv.len()) > 31); assert(!counts_fit(vv)); }'))
-    A(('after', 'asm.put_U8(num_biases as u8, %s)?;' % C['NBW'], 0, 'let ghost vb2 = asm.bits();\nproof { assert(vb2.subrange(0, vb0.len() as int) =~= vb0); }'))
+    A(('after', 'asm.put_U8(%s, %s)?;' % (C['NBARG'], C['NBW']), 0, 'let ghost vb2 = asm.bits();\nproof { assert(vb2.subrange(0, vb0.len() as int) =~= vb0); }'))
     sp.loopbodies[3] = 'proof { assert(asm.bits().subrange(0, vb0.len() as int) =~= vb0); }'
     A(('after', 'asm.put_U8(sig_id, %s)?;' % C['SIGW'], 0, 'proof { assert(asm.bits().subrange(0, vb0.len() as int) =~= vb0); }'))
     A(('after', 'let mut bias_mask: u32 = 0;', 0, 'proof { assert(asm.bits() =~= vb2 + gbits(vv, s as int, 0)); }'))
